@@ -298,7 +298,7 @@ impl Property for C03 {
         "C03"
     }
     fn rule(&self) -> String {
-        "small (exhaustive over a seeded sample of stores): stores of 0..4 UTxOs over addresses {A,B,C} x lovelace {0,1,2,5} x two tokens {0,1,3}; queries = address {none,A,B} x ref {none, own, foreign, dangling} x min_amount {absent} or per class {absent,0,1,2,4}^3 x {single,many} x {input,collateral}, every query against every sampled store; tight: 1..50 candidates at the queried address among up to 80 others, the threshold set to the exact total of the candidates (multi-UTxO) or to the one dominating candidate (single; magnitudes from units to 2^45, and near misses 1..10 above the best candidate, which must stay unresolved), so that losing any candidate anywhere (narrowing, window, selection, excess trimming) turns a resolvable query into a failure; random: stores of 1..50 and 51..200 UTxOs with amounts up to 2^62 (one UTxO in five also holds a policy-less Named asset: not lovelace, hence no collateral), the same query shapes plus hand-built multi-ref queries (soundness only). Oracle: brute force over the store written against the statement (soundness of the bound set; completeness on the candidate set when it has <= 50 members). Non-trivial: the query has >= 2 constraints and the store has both candidate and non-candidate UTxOs; distinct = distinct (store, query).".into()
+        "small (exhaustive over a seeded sample of stores): stores of 0..4 UTxOs over addresses {A,B,C} x lovelace {0,1,2,5} x two tokens {0,1,3}; queries = address {none,A,B} x ref {none, own, foreign, dangling} x min_amount {absent} or per class {absent,0,1,2,4}^3 x {single,many} x {input,collateral}, every query against every sampled store; tight: 1..50 candidates at the queried address among up to 80 others, the threshold set to the exact total of the candidates (multi-UTxO) or to the one dominating candidate (single; magnitudes from units to 2^45, and near misses 1..10 above the best candidate, which must stay unresolved), so that losing any candidate anywhere (narrowing, window, selection, excess trimming) turns a resolvable query into a failure; blocks: 50 + s equal UTxOs at one address, s single-UTxO blocks visited first and one multi-UTxO block that needs all of the (at most 50) UTxOs they leave - the statement's candidates are those no other block has taken; random: stores of 1..50 and 51..200 UTxOs with amounts up to 2^62 (one UTxO in five also holds a policy-less Named asset: not lovelace, hence no collateral), the same query shapes plus hand-built multi-ref queries (soundness only). Oracle: brute force over the store written against the statement (soundness of the bound set; completeness on the candidate set when it has <= 50 members). Non-trivial: the query has >= 2 constraints and the store has both candidate and non-candidate UTxOs; distinct = distinct (store, query).".into()
     }
     fn assumptions(&self) -> Vec<String> {
         vec![
@@ -308,12 +308,12 @@ impl Property for C03 {
     }
     fn phases(&self, tier: Tier) -> Vec<Phase> {
         match tier {
-            Tier::Quick => vec![Phase::new("small", 120, Profile::Release), Phase::new("random", 6_000, Profile::Release), Phase::new("tight", 6_000, Profile::Release)],
-            Tier::Thorough => vec![Phase::new("small", 2_500, Profile::Release), Phase::new("random", 300_000, Profile::Release), Phase::new("tight", 300_000, Profile::Release)],
+            Tier::Quick => vec![Phase::new("small", 120, Profile::Release), Phase::new("random", 6_000, Profile::Release), Phase::new("tight", 6_000, Profile::Release), Phase::new("blocks", 1_500, Profile::Release)],
+            Tier::Thorough => vec![Phase::new("small", 2_500, Profile::Release), Phase::new("random", 300_000, Profile::Release), Phase::new("tight", 300_000, Profile::Release), Phase::new("blocks", 60_000, Profile::Release)],
         }
     }
     fn required_features(&self, _tier: Tier) -> Vec<String> {
-        ["outcome/resolved", "outcome/not-resolved", "outcome/too-broad", "store/narrow-by-address", "store/narrow-by-asset", "store/fetch-dangling", "store/fetch-window-full", "shape/from+ref", "shape/collateral", "shape/many", "shape/multi-ref", "tight/needs-all-candidates", "tight/window-nearly-full", "tight/single-unique-cover", "tight/single-near-miss", "tight/no-address-token-holders", "store/utxo-with-named-asset"]
+        ["outcome/resolved", "outcome/not-resolved", "outcome/too-broad", "store/narrow-by-address", "store/narrow-by-asset", "store/fetch-dangling", "store/fetch-window-full", "shape/from+ref", "shape/collateral", "shape/many", "shape/multi-ref", "tight/needs-all-candidates", "tight/window-nearly-full", "tight/single-unique-cover", "tight/single-near-miss", "tight/no-address-token-holders", "store/utxo-with-named-asset", "blocks/resolved", "blocks/rest-fills-the-window"]
             .iter()
             .map(|s| s.to_string())
             .collect()
@@ -369,6 +369,69 @@ impl Property for C03 {
                 }
             }
             ctx.sample(|| json!({"phase": "small", "store": store.iter().map(|u| json!({"addr": u.address[1], "lovelace": amount(u, 0), "T1": amount(u, 1), "T2": amount(u, 2)})).collect::<Vec<_>>(), "queries": "every (address, ref, min_amount, single/many, input/collateral) combination"}));
+        } else if phase == "blocks" {
+            // candidates are "the UTxOs ... that no other block has taken": a wallet of 50 + s equal UTxOs, s
+            // single-UTxO blocks (named so that they are visited first) and one multi-UTxO block that needs all
+            // of the 50 that are left - equal amounts, so which UTxOs the first blocks take does not matter
+            let sgl = 1 + rng.usize(4);
+            let rest = *rng.pick(&[50usize, 50, 49, 30, 5]);
+            let n = rest + sgl;
+            let unit = *rng.pick(&[10i128, 1_000_000]);
+            let a = 1u8;
+            let mut store: Vec<Utxo> = (0..n).map(|k| mk_utxo(k as u32 + 1, a, unit, 0, 0)).collect();
+            for _ in 0..rng.usize(20) {
+                let k = store.len() as u32 + 1;
+                store.push(mk_utxo(k, 2, unit * 3, 0, 0));
+            }
+            for i in (1..store.len()).rev() {
+                let j = rng.usize(i + 1);
+                store.swap(i, j);
+            }
+            let mut tx = one_input_tx(&Query { address: Some(a), refs: vec![], min: Some([Some(unit * rest as i128), None, None]), many: true, collateral: false });
+            tx.inputs[0].name = "zz_rest".into();
+            if let tir::Expression::EvalParam(p) = &mut tx.inputs[0].utxos {
+                if let tir::Param::ExpectInput(name, _) = p.as_mut() {
+                    *name = "zz_rest".into();
+                }
+            }
+            for k in 0..sgl {
+                let q = Query { address: Some(a), refs: vec![], min: Some([Some(unit), None, None]), many: false, collateral: false };
+                let name = format!("a{k}");
+                tx.inputs.push(tir::Input { name: name.clone(), utxos: tir::Expression::EvalParam(Box::new(tir::Param::ExpectInput(name, query_expr(&q)))), redeemer: tir::Expression::None });
+            }
+            let st = LoggedStore::new(store.clone());
+            ctx.eval();
+            ctx.count("blocks/checked");
+            if rest == 50 {
+                ctx.count("blocks/rest-fills-the-window");
+            }
+            let detail = |what: serde_json::Value| json!({"phase": "blocks", "equal_utxos_at_the_address": n, "amount_each": unit.to_string(), "single_blocks_visited_first": sgl, "multi_block_needs": rest, "elsewhere": store.len() - n, "observed": what});
+            match crate::panics::catch(|| pollster::block_on(resolve(AnyTir::V1Beta0(tx), &st))) {
+                Err(p) => ctx.violation(format!("panic:{}", p.signature()), detail(json!({"panic": p.message}))),
+                Ok(Err(e)) => ctx.violation("incomplete:blocks:candidates-left-by-other-blocks-cover", detail(json!({"error": e.to_string()}))),
+                Ok(Ok(AnyTir::V1Beta0(out))) => {
+                    // soundness across the blocks: disjoint, at the address, covering
+                    let mut seen = std::collections::BTreeSet::new();
+                    for i in &out.inputs {
+                        let Some(sel) = bound_set(&i.utxos) else {
+                            ctx.violation("unbound-after-resolve", detail(json!({"block": i.name})));
+                            continue;
+                        };
+                        let total: i128 = sel.iter().map(|u| amount(u, 0)).sum();
+                        let need = if i.name == "zz_rest" { unit * rest as i128 } else { unit };
+                        if total < need || sel.iter().any(|u| u.address != addr(a)) {
+                            ctx.violation("unsound:blocks:min-amount-or-address", detail(json!({"block": i.name, "total": total.to_string(), "needs": need.to_string()})));
+                        }
+                        for u in &sel {
+                            if !seen.insert((u.r#ref.txid.clone(), u.r#ref.index)) {
+                                ctx.violation("unsound:blocks:utxo-in-two-blocks", detail(json!({"block": i.name})));
+                            }
+                        }
+                    }
+                    ctx.count("blocks/resolved");
+                    ctx.nontrivial(fnv64(format!("blocks{idx}{n}{sgl}{unit}").as_bytes()));
+                }
+            }
         } else if phase == "tight" {
             // the completeness boundary: the candidate set (<= 50, next to non-candidates) covers the
             // threshold only when (nearly) all of it is used - any candidate the narrowing, the window
